@@ -45,7 +45,7 @@ impl Scenario for Resv {
         format!("resv-p{}-n{}-{}-m{:?}{}{}", self.peers, self.pieces, if self.gated { "gated" } else { "direct" }, self.masks, if self.with_close { "-close" } else { "" }, if self.with_interest { "-int" } else { "" }) + if self.repeat_bitfield { "-rebf" } else { "" }
     }
     fn cfg(&self) -> WorldCfg {
-        WorldCfg { torrent: Torrent::new("t", 5, &[("f", 5 * self.pieces)], true), have: vec![], peers: (0..self.peers).map(|k| peer_cfg(k, k % 2 == 0)).collect(), gated: self.gated }
+        WorldCfg { torrent: Torrent::new("t", 5, &[("f", 5 * self.pieces)], true), have: vec![], peers: (0..self.peers).map(|k| peer_cfg(k, k % 2 == 0)).collect(), gated: self.gated, stale: vec![] }
     }
     fn explore_choices(&self) -> bool {
         true
@@ -287,16 +287,28 @@ pub fn run(ctx: &Ctx) -> Outcome {
         per.push(json!({"scenario": s.name(), "depth": depth, "states": st.states, "transitions": st.transitions, "depth_completed": st.depth_completed, "choice_points": st.choice_points, "frontier": st.frontier_sizes}));
         total.merge(&st);
     }
+    // reservations across tracker-driven reconnects (replies longer than the dial budget, the same
+    // address listed twice, a host re-listed under a new id) exist only in the full-session world
+    for (s, depth) in crate::c02::reservation_scenarios() {
+        let st = explore::bfs(ctx, &s, depth, ctx.tier.pick(50, 25));
+        per.push(json!({"scenario": explore::Sys::name(&s), "depth": depth, "states": st.states, "transitions": st.transitions, "depth_completed": st.depth_completed}));
+        total.merge(&st);
+    }
     let mut o = Outcome::new("model_checking");
     explore::stats_outcome(&total, &mut o);
     o.set("scenarios", Value::Array(per));
-    o.set("rule", json!("events per peer k: B<k>:<mask> bitfield over the first three pieces (first message; in the -rebf scenarios also repeated/late, at most twice), H<k>:<i> have, C<k> choke, U<k> unchoke (repeatable), I<k>/N<k> interest, P<k> correct answer to the oldest outstanding request (also while choking), X<k> disconnect, L<k> release of a held-back broadcast (gated scenarios); single-block pieces; torrents of 3 pieces (end game) and 13 pieces of which only 3 are ever advertised (no end game); every Fisher-Yates tie-break of the chooser is a choice point; states = canonical snapshots of manager + all connection tasks + piece files + monitor (rate counters dropped: no timer event)."));
+    o.set("rule", json!("events per peer k: B<k>:<mask> bitfield over the first three pieces (first message; in the -rebf scenarios also repeated/late, at most twice), H<k>:<i> have, C<k> choke, U<k> unchoke (repeatable), I<k>/N<k> interest, P<k> correct answer to the oldest outstanding request (also while choking), X<k> disconnect, L<k> release of a held-back broadcast (gated scenarios); single-block pieces; torrents of 3 pieces (end game) and 13 pieces of which only 3 are ever advertised (no end game); every Fisher-Yates tie-break of the chooser is a choice point; states = canonical snapshots of manager + all connection tasks + piece files + monitor (rate counters dropped: no timer event). Plus three full-session scenarios borrowed from C02 (reservation-*): a 12-entry tracker reply naming one address twice, a host re-listed under a new peer id, a seeder plus a peer that leaves and is offered again; there only the manager's reservation records are judged (a Reserved piece has a connected, unchoking holder; no task panics)."));
     o.assume("invariants are evaluated in quiescent states (every queued command handled); reduction argument in DESIGN.md 0.2");
     o
 }
 
 pub fn replay(_ctx: &Ctx, r: &Value) -> i32 {
     let name = r["scenario"].as_str().unwrap();
+    for (s, _) in crate::c02::reservation_scenarios() {
+        if explore::Sys::name(&s) == name {
+            return explore::replay_verbose(&s, &explore::hist_from_json(&r["history"]), "C12");
+        }
+    }
     for thorough in [false, true] {
         for (s, _) in scenarios(thorough) {
             if s.name() == name {
